@@ -672,6 +672,9 @@ def build_call(desc, Pm):
     cname, mname, kind = desc['cls'], desc['name'], desc['kind']
     c = getattr(Pm, cname)
     recv = build_receiver(desc['recv'], Pm) if desc['recv'] is not None else None
+    if cname == 'Units' and recv is not None and is_inplace(desc):
+        # a documented mutator must not be aimed at a shared constant: use a private copy
+        recv = Pm.Units(recv.exponents, recv.triple, copy.deepcopy(recv.name))
     args, kwargs, operands = [], {}, [('recv', recv)]
     sig_params = None
     positional = True
